@@ -1,5 +1,7 @@
 package values
 
+import "math"
+
 // A Range is the range of integers from b to e inclusive.
 type Range struct {
 	b, e int
@@ -15,11 +17,19 @@ func (r Range) Len() int {
 	if r.e < r.b {
 		return 0
 	}
-	return r.e + 1 - r.b
+	if n := r.e - r.b + 1; n > 0 {
+		return n
+	}
+	// more elements than an int can count: the difference wrapped around
+	return math.MaxInt
 }
 
 // Index is in the iteration interface
 func (r Range) Index(i int) any { return r.b + i }
+
+// maxRangeArrayLen is the largest range that Convert turns into an array. A longer one
+// cannot be allocated (make panics), so it is a conversion error instead.
+const maxRangeArrayLen = math.MaxInt32
 
 // AsArray converts the range into an array.
 func (r Range) AsArray() []any {
